@@ -198,6 +198,8 @@ impl Sender {
         //
         // All we do with the lock is call `send`, so there's no chance of any state being corrupted on
         // panic. Therefore it's safe to ignore the mutex poison.
+        #[cfg(calloop_verif)]
+        crate::verif::yield_point(crate::verif::Site::ExecSendPre);
         if let Err(e) = self
             .sender
             .lock()
@@ -215,11 +217,15 @@ impl Sender {
             unreachable!("Attempted to send runnable to a stopped executor");
         }
 
+        #[cfg(calloop_verif)]
+        crate::verif::yield_point(crate::verif::Site::ExecSwapPre);
         // If the executor is already awake, don't bother waking it up again.
         if self.notified.swap(true, Ordering::SeqCst) {
             return;
         }
 
+        #[cfg(calloop_verif)]
+        crate::verif::yield_point(crate::verif::Site::ExecSwapPost);
         // Wake the executor.
         self.wake_up.ping();
     }
@@ -229,6 +235,8 @@ impl<T> Drop for Executor<T> {
     fn drop(&mut self) {
         let active_tasks = self.state.active_tasks.borrow_mut().take().unwrap();
 
+        #[cfg(calloop_verif)]
+        crate::verif::yield_point(crate::verif::Site::ExecDropWakePre);
         // Wake all of the active tasks in order to destroy their runnables.
         for (_, task) in active_tasks {
             if let Active::Future(waker) = task {
@@ -245,6 +253,8 @@ impl<T> Drop for Executor<T> {
             }
         }
 
+        #[cfg(calloop_verif)]
+        crate::verif::yield_point(crate::verif::Site::ExecDropDrainPre);
         // Drain the queue in order to drop all of the runnables.
         while self.state.incoming.try_recv().is_ok() {}
     }
@@ -316,10 +326,16 @@ impl<T> EventSource for Executor<T> {
                 .source
                 .process_events(readiness, token, |(), &mut ()| {
                     // Set to the unnotified state.
+                    #[cfg(calloop_verif)]
+                    crate::verif::yield_point(crate::verif::Site::ExecClearPre);
                     state.sender.notified.store(false, Ordering::SeqCst);
+                    #[cfg(calloop_verif)]
+                    crate::verif::yield_point(crate::verif::Site::ExecClearPost);
 
                     // Process runnables, but not too many at a time; better to move onto the next event quickly!
                     for _ in 0..1024 {
+                        #[cfg(calloop_verif)]
+                        crate::verif::yield_point(crate::verif::Site::ExecRecvPre);
                         let runnable = match state.incoming.try_recv() {
                             Ok(runnable) => runnable,
                             Err(_) => {
